@@ -75,9 +75,16 @@ def ops():
     return out
 
 
+def _hidden(b):
+    # attributes the pinned Broker/Exchange do not have (caches added by a change) keep states apart; `_mcx_rm` is the harness's own tag
+    from mcx.harness import hidden_state
+    return tuple(h for h in hidden_state(b, [F, S]) if h[1] != "_mcx_rm")
+
+
 def key(b):
     return (b._mcx_rm, round(b._holdings_quantity[b.base_currency], 6), b._last_accrual,
-            round(b._holdings_margins.get(F, 0.0), 9), b._holdings_quantity.get(F, 0.0), round(b._holdings_quantity.get(S, 0.0), 9))
+            round(b._holdings_margins.get(F, 0.0), 9), b._holdings_quantity.get(F, 0.0), round(b._holdings_quantity.get(S, 0.0), 9),
+            _hidden(b))
 
 
 def ok_amount(got, exp, cash):
